@@ -19,7 +19,8 @@ RULE = ("MAF texts (header pragmas, column line, 0-7 data lines) read through Ma
         "(\"warm\"); typed lines may carry an invalid value in a column that is not part of the key (Strand, "
         "Variant_Type: the record has a validation error but all its key columns); lines are handed to the reader "
         "bare, LF- or CRLF-terminated; the extra column of scheme-less files is last, first or absent (so that a key "
-        "column can be the last one); observed: records yielded (their accessor values) and how the loop ended; "
+        "column can be the last one); the iteration is driven by a `for` loop, by next(it), by it.next() or by "
+        "iter(iter(reader)) (which must be the same iterator); observed: records yielded (their accessor values) and how the loop ended; "
         "non-trivial = at least two records in the file and a sortable order declared or at least one record "
         "yielded; distinct by hash of the case")
 ASSUMPTIONS = [
@@ -172,7 +173,7 @@ def _gen_one(rng):
             w = w[k:] + w[:k]
         warm = w
     return {"stream": stream, "typed": typed, "header": header, "declared": declared, "names": colnames, "rows": descs,
-            "warm": warm, "other": other, "eol": eol}
+            "warm": warm, "other": other, "eol": eol, "iter": rng.choice(["for", "for", "next", "dotnext", "iter"])}
 
 
 def generate(rng, n):
@@ -214,6 +215,10 @@ def corpus():
         # the same data read first under another contig list in the same interpreter
         dict(_ucase(["#sort.order Coordinate", "#contigs chr1,chr2,chr10"], ["Coordinate", ["chr1", "chr2", "chr10"]],
                     [["chr1", "9", "9"], ["chr2", "1", "1"], ["chr10", "1", "1"]]), warm=["chr10", "chr2", "chr1"]),
+        # the same outcome however the iteration is driven
+        dict(_ucase(["#sort.order Coordinate"], ["Coordinate", None], [["chr1", "9", "9"], ["chr1", "10", "10"], ["chr1", "2", "2"]]), iter="dotnext"),
+        dict(_ucase(["#sort.order Coordinate"], ["Coordinate", None], [["chr1", "9", "9"], ["chr1", "10", "10"], ["chr1", "2", "2"]]), iter="iter"),
+        dict(_ucase(["#sort.order Coordinate"], ["Coordinate", None], [["chr1", "9", "9"], ["chr1", "10", "10"], ["chr1", "2", "2"]]), iter="next"),
         # a record with a validation error in a non-key column still takes part in the order check
         _tcase(["#sort.order Coordinate"], ["Coordinate", None],
                [dict(chrom="1", start="5", end="5"), dict(chrom="1", start="9", end="9"), dict(chrom="1", start="7", end="7", strand="?"),
@@ -309,9 +314,26 @@ def run_impl(case):
             pass
     reader = MafReader(lines=iter(raw_lines(case)), validation_stringency=ValidationStringency.Silent)
     echo, end = [], None
+    how = case.get("iter", "for")
     try:
-        for rec in reader:
-            echo.append(C.echo_obj(rec))
+        if how == "for":
+            for rec in reader:
+                echo.append(C.echo_obj(rec))
+        else:
+            it = iter(reader)                       # the SortOrderEnforcingIterator
+            if how == "iter":
+                it2 = iter(it)
+                if it2 is not it:
+                    raise AssertionError("iter() of the enforcing iterator is another object")
+                for rec in it2:
+                    echo.append(C.echo_obj(rec))
+            else:
+                while True:
+                    try:
+                        rec = next(it) if how == "next" else it.next()
+                    except StopIteration:
+                        break
+                    echo.append(C.echo_obj(rec))
     except Exception as e:
         end = C.exc_code(e)
     return {"n": len(echo), "end": end, "echo": echo}
